@@ -307,7 +307,7 @@ pub fn cfg() -> BoxedStrategy<Cfg> {
 pub fn io() -> BoxedStrategy<Io> {
     (
         prop_oneof![4 => Just(false), 1 => Just(true)],
-        prop_oneof![6 => Just(0u8), 1 => Just(1), 1 => Just(7)],
+        prop_oneof![6 => Just(0u32), 1 => Just(1), 1 => Just(7)],
     )
         .prop_map(|(pending, write_limit)| Io {
             pending,
@@ -505,9 +505,27 @@ pub fn deep_command_list() -> BoxedStrategy<Vec<Argv>> {
                 v.push(vec![b("PING")]);
                 v
             }),
+        // many medium replies: one value of 1-4 KB read back hundreds of times in one pipeline, so
+        // that the replies of ONE batch add up to several hundred KB (output-side thresholds)
+        3 => (
+            prop_oneof![Just(1_000usize), Just(1_024), Just(4_000)],
+            prop_oneof![Just(70usize), Just(260), Just(330), Just(600), Just(1_100)],
+            any::<u8>()
+        )
+            .prop_map(move |(size, n, fill)| {
+                let mut v = vec![vec![b("SET"), b("mid"), vec![b'a' + fill % 26; size]]];
+                for i in 0..n {
+                    v.push(if i % 50 == 49 { vec![b("STRLEN"), b("mid")] } else { vec![b("GET"), b("mid")] });
+                }
+                v.push(vec![b("PING")]);
+                v
+            }),
         // large single frames between small ones
         3 => (
-            prop_oneof![Just(65_535usize), Just(65_536), Just(65_537), Just(1usize << 20), Just(200_000)],
+            prop_oneof![
+                Just(65_535usize), Just(65_536), Just(65_537), Just(200_000), Just(262_143), Just(262_144), Just(262_145),
+                Just(300_000), Just(1usize << 20), Just((1usize << 20) + 1)
+            ],
             palette,
             0usize..4,
             any::<u8>()
